@@ -85,6 +85,10 @@ instance (a : Access) : Decidable a.inBounds := by unfold Access.inBounds; exact
 
 abbrev metaCap : Nat := Consts.metaBlockSize      -- sizeof(m->data) = sizeof(m->scratch)
 
+/-- the contract of `sqfs_compressor_t.do_block` that every theorem about a routine calling it assumes (`MetaCodecOk`,
+`hcodec`): the return value is negative (an error code) or at most `outsize` -/
+def codecContract (outsize : UInt32) (ret : Int) : Bool := ret < 0 || ret ≤ outsize.toNat
+
 /-! ## `meta_reader.c` -/
 
 /-- `sqfs_meta_reader_t` control state (the block contents are not modelled here) -/
